@@ -102,6 +102,15 @@ func init() {
 	externals["crypto/x509.MarshalPKIXPublicKey"] = func(fr *frame, args []value) value {
 		return tuple{strBytesCopy("PUBKEY"), nilError()}
 	}
+	// crypto/sha1 (subject key identifiers): the digest is a fixed 20-byte value in the engine;
+	// no property depends on its bits
+	externals["(*crypto/sha1.digest).Write"] = func(fr *frame, args []value) value {
+		return tuple{len(args[1].([]value)), nilError()}
+	}
+	externals["(*crypto/sha1.digest).Sum"] = func(fr *frame, args []value) value {
+		out := append([]value(nil), args[1].([]value)...)
+		return append(out, strBytesCopy("sha1-digest-model-20")...)
+	}
 	externals["crypto/rsa.GenerateKey"] = func(fr *frame, args []value) value {
 		cell := zero(fr.i.namedType("crypto/rsa", "PrivateKey"))
 		return tuple{&cell, nilError()}
